@@ -165,22 +165,23 @@ def run(ctx):
                   f"{owner}.to_dict returns {rets_} but calls the subclass hook on {hook} - keys added by subclasses are lost", td_.where)
 
     # the 1-D / N-D readers unpack the stored missed list exactly when it is there
-    k1 = m.cls("Histogram1D").methods["_kwargs_from_dict"]
+    k1 = m.cls("Histogram1D").methods.get("_kwargs_from_dict")
     pol1 = {}
-    for p_ in function_paths(k1.node):
+    for p_ in (function_paths(k1.node) if k1 is not None else []):
         cs_ = dict((U(s_[1]), s_[2]) for s_ in p_ if s_[0] == "cond")
         if "missed is not None" in cs_:
             pol1[cs_["missed is not None"]] = any(s_[0] == "stmt" and isinstance(s_[1], ast.Assign) and "kwargs['underflow']" in U(s_[1].targets[0]) for s_ in p_)
     ctx.check(pol1 == {True: True, False: False}, "C08.a", "Histogram1D._kwargs_from_dict:missed-unpacked",
-              "underflow, overflow, inner_missed = missed exactly when a missed list was stored", f"unpacking per `missed is not None`: {pol1}", k1.where)
-    kn = m.cls("HistogramND").methods["_kwargs_from_dict"]
+              "underflow, overflow, inner_missed = missed exactly when a missed list was stored", f"unpacking per `missed is not None`: {pol1}", k1.where if k1 is not None else HB.where)
+    kn = m.cls("HistogramND").methods.get("_kwargs_from_dict")
     poln = {}
-    for p_ in function_paths(kn.node):
+    for p_ in (function_paths(kn.node) if kn is not None else []):
         cs_ = dict((U(s_[1]), s_[2]) for s_ in p_ if s_[0] == "cond")
         if "'missed' in kwargs" in cs_:
             poln[cs_["'missed' in kwargs"]] = any(s_[0] == "stmt" and isinstance(s_[1], ast.Assign) and "kwargs['missed']" in U(s_[1].targets[0]) for s_ in p_)
     ctx.check(poln == {True: True, False: False}, "C08.a", "HistogramND._kwargs_from_dict:missed-unpacked",
-              "(missed,) = stored one-item list exactly when present", f"unpacking per `'missed' in kwargs`: {poln}", kn.where)
+              "(missed,) = stored one-item list exactly when present", f"unpacking per `'missed' in kwargs`: {poln}" if kn is not None else
+              "HistogramND has no reader of its own: the stored one-item missed list is handed to the constructor as it is", kn.where if kn is not None else HB.where)
     kf = HB.methods["_kwargs_from_dict"]
     dim_if = [n for n in ast.walk(kf.node) if isinstance(n, ast.If) and "dimension" in U(n)]
     okdim = len(dim_if) == 1 and U(dim_if[0].test) == "len(kwargs['binnings']) > 2" and [U(b) for b in dim_if[0].body] == ["kwargs['dimension'] = len(kwargs['binnings'])"]
